@@ -65,6 +65,19 @@ def _events():
     ev("parse(normalize off)", lambda a: P("4 decembre 2015", languages=["fr"], settings=a["s"]), {"s": {"NORMALIZE": False}}, core=True)
     ev("parse(normalize on)", lambda a: P("4 decembre 2015", languages=["fr"], settings=a["s"]), {"s": {"NORMALIZE": True}})
     ev("parse(order DMY)", lambda a: P("02/03/2015", languages=["en"], settings=a["s"]), {"s": {"DATE_ORDER": "DMY"}})
+    # the caller's own long-lived dict: filled and used for a call, later changed by its owner (no library call involved in the
+    # change).  A call made afterwards with a fresh dict of the original content must not see the owner's later edits.
+    def _own():
+        return _persist.setdefault("dict:x", {})
+
+    def _with_own(a):
+        x = _own()
+        x.clear()
+        x.update(a["s"])
+        r = P("02/03/2015", languages=["en"], settings=x)
+        return r if x == a["s"] else ("caller's dict modified", dict(x), r)
+    ev("caller fills its own dict with DATE_ORDER=DMY and parses with it", _with_own, {"s": {"DATE_ORDER": "DMY"}}, core=True)
+    ev("caller empties its own dict (no library call)", lambda a: _own().clear(), core=True)
     ev("parse(order YMD)", lambda a: P("02/03/04", languages=["en"], settings=a["s"]), {"s": {"DATE_ORDER": "YMD"}})
     ev("parse(fr, no locale order)", lambda a: P("02/03/2015", languages=["fr"], settings=a["s"]), {"s": {"PREFER_LOCALE_DATE_ORDER": False}})
     ev("parse(default languages fr)", lambda a: P("il y a 2 jours", languages=["en"], settings=a["s"]), {"s": {"DEFAULT_LANGUAGES": ["fr"], "RELATIVE_BASE": B}})
@@ -325,7 +338,7 @@ def run(tier, seed, jobs, deadline, report):
     # cache-limit calls, calls whose settings inherit from the module default)
     quick_core = {i for i, e in enumerate(E) if e["name"].startswith("persistent") or e["name"] in (
         "parse(en, cache limit 1)", "parse(fr, cache limit 1)", "parse(de, cache limit 2)", "search(fr, S1)",
-        "parse(fr, no locale order)", "parse(tl numeric)", "parse(foo string, default settings)")}
+        "parse(fr, no locale order)", "parse(tl numeric)", "parse(foo string, default settings)", "parse(order DMY)")}
     if T:
         res = _explore(full, 3, core, 4, jobs, deadline, seed, extend_from=all_core)
     else:
